@@ -121,8 +121,8 @@ Definition merge_tiles_gen (u : mode -> pixel -> pixel -> pixel) (f : fmt) (k : 
       end
   end.
 
-Definition merge_tiles := merge_tiles_gen upd_px.              (* the code as it is *)
-Definition merge_tiles_fixed := merge_tiles_gen upd_px_fixed.  (* with fixes/C02-1.patch *)
+Definition merge_tiles := merge_tiles_gen upd_px.              (* the code before fix a186b8b *)
+Definition merge_tiles_fixed := merge_tiles_gen upd_px_fixed.  (* the code as it is now *)
 
 (* what load_path gives for a jpg: an RGB image whose pixel values are not
    modelled; [orc] stands for the decoder's output *)
